@@ -242,27 +242,27 @@ def quoted_regions(s):
     return out
 
 
-def wrapped(target, line, level, width):
+def wrapped(target, line, level, width, indentation=None):
     import dagrt.codegen.python as P
     import dagrt.codegen.fortran as F
     if target == "python":
-        return P.wrap_line(line, level, width=width)
-    return F.wrap_line(line, level, width=width, indentation=" ")
+        return P.wrap_line(line, level, width=width) if indentation is None else P.wrap_line(line, level, width=width, indentation=indentation)
+    return F.wrap_line(line, level, width=width, indentation=" " if indentation is None else indentation)
 
 
-def judge_line(target, line, level, width):
+def judge_line(target, line, level, width, indentation=None):
     """None or a problem description for one concrete line."""
     regs = quoted_regions(line)
     if regs is None:
         return None          # not a lexable line (open quote): outside the family
     try:
-        lines = wrapped(target, line, level, width)
+        lines = wrapped(target, line, level, width, indentation)
     except ValueError:
         return None          # shlex refuses (no closing quotation): outside
     except Exception as e:  # noqa
         return "wrap_line raised %s: %s" % (type(e).__name__, e)
     marker = "\\" if target == "python" else "&"
-    extra = "    " if target == "python" else " "
+    extra = indentation if indentation is not None else ("    " if target == "python" else " ")
     parts = []
     for k, l in enumerate(lines):
         if k < len(lines) - 1:
@@ -336,6 +336,18 @@ def work_chars(item):
         else:
             st.refuted += 1
             cands.append({"part": "chars", "target": target, "line": line, "level": level, "width": width, "problem": bad})
+            continue
+        # the OTHER back end right afterwards on the same line with the same level, width and indentation string
+        # (the two wrap_line functions share wrap_line_base: what one call did must not leak into the next)
+        other = "fortran" if target == "python" else "python"
+        st.obligations += 1
+        bad = judge_line(target, line, level, width, "  ") or judge_line(other, line, level, width, "  ")
+        if bad is None:
+            st.discharged += 1
+        else:
+            st.refuted += 1
+            cands.append({"part": "chars", "target": target, "line": line, "level": level, "width": width, "shared_indentation": "  ",
+                          "problem": "after wrapping the same line with the other back end (same arguments): " + bad})
     tr.stop()
     return {"stats": st.as_dict(), "candidates": cands, "evaluations": n, "distinct_nontrivial": n,
             "samples": [], "functions": sorted(tr.seen)}
@@ -414,6 +426,13 @@ def char_cases(tier, seed):
 # ---------------------------------------------------------------------------
 
 def replay(d):
+    if d["part"] == "chars" and d.get("shared_indentation"):
+        other = "fortran" if d["target"] == "python" else "python"
+        ind = d["shared_indentation"]
+        bad = judge_line(d["target"], d["line"], d["level"], d["width"], ind) or judge_line(other, d["line"], d["level"], d["width"], ind)
+        return {"reproduced": bad is not None, "known_shape": False,
+                "detail": "wrap_line(%r, level=%d, width=%d, indentation=%r) by the %s back end and then by the other one: %s"
+                          % (d["line"], d["level"], d["width"], ind, d["target"], bad)}
     if d["part"] == "chars":
         bad = judge_line(d["target"], d["line"], d["level"], d["width"])
         return {"reproduced": bad is not None, "known_shape": quote_inside_word(d["line"]),
@@ -527,15 +546,23 @@ def main(tier, seed):
     run = Run(PID, tier, seed, "other")
     maxtok = 5 if tier == "quick" else 7
     jobs = [(t, n) for t in ("python", "fortran") for n in range(1, maxtok + 1)]
-    for part in pmap("vf.checks.c20", "work_sym", [{"jobs": [j]} for j in jobs]):
-        run.absorb(part)
+    try:
+        for part in pmap("vf.checks.c20", "work_sym", [{"jobs": [j]} for j in jobs]):
+            run.absorb(part)
+    except common.HarnessError as e:
+        # e.g. the code under test hashes its arguments (a cache): proxies are not hashable.  The concrete part still runs.
+        run.harness_errors.append("symbolic part: %s" % str(e)[-600:])
     cases, ngen = char_cases(tier, seed)
     for part in pmap("vf.checks.c20", "work_chars", [{"cases": c} for c in chunks(cases, common.NPROC * 2)]):
         run.absorb(part)
     run.bounds = {"tokens": "1..%d" % maxtok, "token_length": "1..200", "level": "0..8", "width": "8..132",
                   "char_strings": "all lexable strings of <= %d characters over {a, blank, ', \", =, (} at width 8" % (6 if tier == "quick" else 8),
                   "generated_lines_x_widths": ngen}
-    run.selftests = selftests()
+    try:
+        run.selftests = selftests()
+    except Exception as e:  # noqa
+        run.selftests = {"selftests_ran": False}
+        run.harness_errors.append("self-tests raised %s: %s" % (type(e).__name__, e))
     if not all(run.selftests.values()):
         run.harness_errors.append("self-test failed: %r" % run.selftests)
     run.extra["char_cases"] = len(cases)
